@@ -32,7 +32,8 @@ AXIOM_WHITELIST = [
 
 TRUSTED_BASE_COMMON = [
     "Coq 8.16.1 kernel (coqc); vm_compute for model evaluation and computed witnesses; no native_compute",
-    "axioms: none (every property theorem prints 'Closed under the global context')",
+    "axioms: none (every property theorem prints 'Closed under the global context'; re-checked on every run, and by coqchk -o in the thorough tier)",
+    "no OCaml extraction is used (no Extract Constant / Extract Inductive directives): the models are evaluated inside Coq by vm_compute",
     "hand-written Gallina models under coq/theories (layer M), tied to the Go code by the differential correspondence check of this run",
     "tools/gofacts (constants regenerated from the Go AST into Generated/Params.v)",
     "Go harness (/verif/harness), its canonicalisation of observations, and the verif-tagged read-only hooks in /repo",
@@ -518,10 +519,11 @@ class Ctx:
                 continue
             axioms[n] = txt.strip()
         self.coverage["axioms"] = axioms if axioms else "none: every theorem is 'Closed under the global context'"
-        not_ok = [n for n, txt in axioms.items() if not all(any(w in l for w in AXIOM_WHITELIST) for l in txt.split("\n")[1:] if l.strip() and ":" in l and not l.startswith(" "))]
-        if axioms and not_ok:
-            self.coverage["discharged"] = len(names) - len(not_ok)
-            self.proof_broken = "theorems depend on axioms: " + json.dumps(axioms)[:800]
+        if axioms:
+            # the development is axiom-free by design (DESIGN.md A6); any assumption, even a standard-library
+            # axiom, is reported so that it is either removed or named in the trusted base deliberately
+            self.coverage["discharged"] = len(names) - len(axioms)
+            self.proof_broken = "theorems depend on axioms/assumptions: " + json.dumps(axioms)[:800]
             return False
         self.coverage["discharged"] = len(names)
         if self.tier == "thorough":
